@@ -995,6 +995,13 @@ Family(const std::string &f)
     out.push_back("k=0;W0:C P D || R0:C P E P D | K:F F");
     out.push_back("k=0;W0:C D || R0:C P E P D | K:F F F");
     out.push_back("k=255;W0:C P D || R0:C P E P D | K:F F");
+  } else if (f == "recycle17") {  // C17: the list handed to a thread that inherited the ID slot of an exited thread, then many epochs pass
+    for (int k : {0, 255, 300, 511}) {  // 300: the guard's epoch lies in a node that is neither the initial nor the newest one
+      const std::string pre = "k=" + std::to_string(k) + ";";
+      out.push_back(pre + "W0:C D || R0:L V P V D | K:B600");
+      out.push_back(pre + "W0:L V D || R0:L V P V D | K:F B300 B300");
+    }
+    out.push_back("k=300;W0:C P D || R0:L P V D | K:B256 F B600");
   } else if (f == "recreate") {  // manager destroyed and constructed again at the same address while a worker thread survives
     out.push_back("k=0;W0:C@0 D@1 C@3 E@5 D@7 | K:X@2 F@4 F@6");
     out.push_back("k=0;W0:C@0 D@1 L@3 V@5 D@7 | K:X@2 F@4 F@6");
